@@ -150,6 +150,44 @@ def r1_keys(ctx):
                 text(n.value).replace(" ", "") == "Payload(%s)" % rv and \
                 pat.T("isinstance(%s, Fiber)" % rv, False) in gat(fy, n):
             okr = True
+    # what parse() read reaches the tensor that is returned: a field unpacked
+    # from the parse result and unused on a path to a return was saved for
+    # nothing (the reloaded tensor has lost it) -- `rank_ids` alone may stay
+    # unused where the root is not a fiber (a rank-0 tensor has none)
+    from ..cfg import cfg_of as _cfg
+    g_ = _cfg(fy, assert_edges=False)
+    unpack = [n for n in fy.own_nodes() if isinstance(n, ast.Assign)
+              and isinstance(n.targets[0], ast.Tuple) and isinstance(n.value, ast.Call)
+              and text(n.value.func) == "Tensor.parse"]
+    if unpack:
+        fields = [text(e) for e in unpack[0].targets[0].elts]
+        for r in pat.returns(fy):
+            # statements on some path from the unpacking to this return
+            on_path = [st for st in g_.stmts
+                       if (st is r or st is unpack[0] or
+                           (g_.can_reach(unpack[0], st) and g_.can_reach(st, r)))]
+            used = set()
+            for st in on_path:
+                if st is unpack[0]:
+                    continue
+                if isinstance(st, (ast.If, ast.While, ast.For)):
+                    hdr = st.test if not isinstance(st, ast.For) else st.iter
+                    used |= {x.id for x in ast.walk(hdr) if isinstance(x, ast.Name)}
+                    continue
+                used |= {x.id for x in ast.walk(st) if isinstance(x, ast.Name)
+                         and isinstance(x.ctx, ast.Load)}
+            rank0 = rv is not None and pat.T("isinstance(%s, Fiber)" % rv, False) in gat(fy, r)
+            lost = [fl for fl in fields if fl not in used and not (rank0 and fl == fields[0])]
+            if lost:
+                ctx.bad("C13.R1", fy, r, "Tensor.fromYAMLfile reads %s from the file "
+                        "but returns a tensor built without %s: a dumped tensor "
+                        "comes back without its %s" % (fields, lost, " / ".join(lost)),
+                        text_="Tensor.fromYAMLfile uses every parsed field%s"
+                        % (" (rank-0)" if rank0 else ""))
+            else:
+                ctx.ok("C13.R1", fy, r, "every parsed field reaches the returned tensor",
+                       text_="Tensor.fromYAMLfile uses every parsed field%s"
+                       % (" (rank-0)" if rank0 else ""))
     if okr:
         ctx.ok("C13.R1", fy, fy.node, "a non-fiber root is reloaded as a rank-0 tensor",
                text_="Tensor.fromYAMLfile rank-0")
